@@ -365,6 +365,56 @@ def defuse(rc):
     from . import shared as _sh
     _sh.defuse_rule(rc, _sh.anchor_files("C20"))
 
+
+@rule("C20.scatter", "CanonicalDistribution._operate scatters each operand's K and h into the combined scope at the positions of ITS OWN variables, in its own order", floor=2)
+def scatter(rc):
+    """`ext[np.ix_(index, index)] = K` puts K[i, j] at (index[i], index[j]); `index` therefore lists, for the operand's i-th variable, its position in the combined
+    scope.  The index expressions are evaluated on concrete scopes in which the second operand lists shared variables in another order than the combined scope
+    (x3, x1 against x1, x2, x3): a membership mask or a sorted index list loses exactly that order."""
+    from ..layout import Env, eval_expr
+    repo = rc.repo
+    f = repo.func(CD, "CanonicalDistribution._operate")
+    defs = {}
+    for st in walk_no_nested(f.node):
+        if isinstance(st, ast.Assign) and len(st.targets) == 1 and isinstance(st.targets[0], ast.Name):
+            defs[st.targets[0].id] = st
+    if "all_vars" not in defs:
+        raise AnalysisError("_operate: combined scope `all_vars` not found")
+    # which index goes with which operand: arguments of the scope-extension helpers
+    pairs = set()
+    for c in ast.walk(f.node):
+        if isinstance(c, ast.Call) and isinstance(c.func, ast.Name) and c.func.id.startswith("_extend") and len(c.args) == 2 and isinstance(c.args[1], ast.Name):
+            op = norm(c.args[0]).split(".")[0]
+            pairs.add((op, c.args[1].id))
+    if len(pairs) < 2:
+        raise AnalysisError("_operate: scope-extension calls not found")
+    for sv, ov in ((["x1", "x2", "x3"], ["x3", "x1"]), (["x1", "x2", "x3"], ["x4", "x2"]), (["b", "a"], ["a", "c", "b"])):
+        env = Env()
+        env["self.variables"], env["other.variables"] = list(sv), list(ov)
+        env["np"] = None
+        try:
+            all_vars = eval_expr(defs["all_vars"].value, env)
+            env["all_vars"] = all_vars
+            env["no_of_var"] = len(all_vars)
+            for op, idx in sorted(pairs):
+                if idx not in defs:
+                    raise AnalysisError(f"_operate: index `{idx}` has no single definition")
+                got = eval_expr(defs[idx].value, env)
+                opvars = sv if op == "self" else ov
+                want = [all_vars.index(v) for v in opvars]
+                if isinstance(got, (list, tuple)) and got and all(isinstance(x, bool) for x in got):
+                    got_pos = [i for i, b_ in enumerate(got) if b_]     # numpy: a boolean mask selects the True positions in increasing order
+                else:
+                    got_pos = list(got) if isinstance(got, (list, tuple)) else got
+                rc.ob(f"_operate: scopes {sv} {'*'} {ov}: `{idx}` -> {got_pos}, positions of {op}.variables in the combined scope {want}")
+                if got_pos != want:
+                    rc.fail(f, defs[idx], f"_operate: with scopes {sv} and {ov} the index `{idx} = {norm(defs[idx].value, 60)}` addresses positions {got_pos} of the combined scope "
+                            f"{all_vars}, but {op}.variables {opvars} sit at {want}: K and h of the operand are scattered to the wrong variables", construct=f"_operate scatter index {idx}")
+        except AnalysisError:
+            raise
+
+
+
 MUTANTS = [
     dict(kind="repair", name="canonical-marginalize-uses-inverse", file=CD, gone="C20.order",
          old="                + np.linalg.multi_dot([h_j.T, K_j_j, h_j])", new="                + np.linalg.multi_dot([h_j.T, K_j_j_inv, h_j])"),
